@@ -42,6 +42,8 @@
 //	                                         worker at gate dispDone|drained|beforeDone|beforeDel (verifhook) after dropping the
 //	                                         control connection, offer nwork NewWorkConn for the run id, release, one late offer;
 //	                                         gate `none` = a free race (offers hammering while the control connection drops)  => done
+//	ureq / ustorm / canon / ptear / gchurn   hostile USER traffic on the user-facing listeners, CanonicalHost, frpc teardown with active plugin
+//	                                         requests, ungated group churn: see eng_crash_user.go
 //	relogin / gleave / routes / nstorm / pstorm / swc / closerace   wedges, valid nat-hole storms, hostile server frames for frpc, user datagrams
 //	                                         against a closing udp proxy: see eng_crash_wedge.go
 //	stat                                     what the server answered so far (coverage evidence only;
@@ -291,8 +293,10 @@ func crashSettle(tok []string) time.Duration {
 		}
 	case "storm", "cstorm", "race6", "stun", "negpool":
 		return 50 * time.Millisecond
-	case "wconn", "wstorm", "tear", "nstorm", "closerace", "pstorm":
+	case "wconn", "wstorm", "tear", "nstorm", "closerace", "pstorm", "ustorm":
 		return 80 * time.Millisecond
+	case "ureq":
+		return 5 * time.Millisecond // the listener's goroutine may die right after the connection was closed
 	case "swc":
 		return 40 * time.Millisecond
 	}
@@ -347,6 +351,10 @@ type crashWorld struct {
 	gates     map[string]*crashGate // armed key (Login.Hostname, proxy / group name) -> gate
 	tearSeq   int
 	swc       map[string]*crashSwcFix // proxyProtocolVersion -> scripted server + real frpc (op swc)
+	// user-facing side (eng_crash_user.go)
+	httpsPort   int
+	webPort     int
+	udpUserPort int
 }
 
 var crashW *crashWorld
@@ -406,6 +414,7 @@ func crashStart() *crashWorld {
 		cfg.BindPort = freeTCPPort()
 		cfg.VhostHTTPPort = freeTCPPort()
 		cfg.TCPMuxHTTPConnectPort = freeTCPPort()
+		cfg.VhostHTTPSPort = freeTCPPort()
 		cfg.SubDomainHost = "c16.test"
 		cfg.Auth.Method = v1.AuthMethodToken
 		cfg.Auth.Token = crashToken
@@ -420,6 +429,7 @@ func crashStart() *crashWorld {
 			continue
 		}
 		w.port, w.vhostPort, w.muxPort = cfg.BindPort, cfg.VhostHTTPPort, cfg.TCPMuxHTTPConnectPort
+		w.httpsPort = cfg.VhostHTTPSPort
 		break
 	}
 	if svr == nil {
@@ -467,7 +477,8 @@ func crashStart() *crashWorld {
 	sudp.Secretkey, sudp.AllowUsers = crashSk, []string{"*"}
 	sudp.LocalIP, sudp.LocalPort = "127.0.0.1", w.udpEcho
 	sudp.Complete("")
-	cli, err := client.NewService(client.ServiceOptions{Common: ccfg, ProxyCfgs: []v1.ProxyConfigurer{tcp, stcp, sudp}})
+	// what the user-facing listeners can route to (eng_crash_user.go)
+	cli, err := client.NewService(client.ServiceOptions{Common: ccfg, ProxyCfgs: append([]v1.ProxyConfigurer{tcp, stcp, sudp}, w.userProxies()...)})
 	if err != nil {
 		panic(err)
 	}
@@ -1177,13 +1188,26 @@ func crashChildExec(w *crashWorld, tok []string) string {
 		return "done"
 	case "swc":
 		return w.swcOp(tok[1], unhx(tok[2]), atoi(tok[3]), unhx(tok[4]), atoi(tok[5]))
+	case "ureq":
+		return w.userSend(tok[1], []byte(unhx(tok[2])), crashWait)
+	case "ustorm":
+		seed, _ := strconv.ParseInt(tok[1], 10, 64)
+		w.ustorm(seed, atoi(tok[2]), atoi(tok[3]))
+		return "done"
+	case "canon":
+		return crashCanon(unhx(tok[1]))
+	case "ptear":
+		return w.ptear(tok[1], tok[2] == "1", tok[3], atoi(tok[4]))
+	case "gchurn":
+		return w.gchurn(tok[1], tok[2], atoi(tok[3]))
 	case "stat":
 		byRun, names := w.svr.VerifSessDump()
 		crashCntMu.Lock()
 		defer crashCntMu.Unlock()
 		ks := []string{"loginOK", "proxyOK", "proxyRefused", "pong", "pongErr", "natResp", "reqWork", "workOffered", "workStarted",
 			"workFrames", "udpMarker", "visitorOK", "visitorRefused", "tearParked", "tearOfferClosed", "tearOfferPooled",
-			"reloginParked", "gleaveParked", "wdGroupOK", "wdGroupRefused", "natSent", "swc", "closeraceSent", "pstormSent", "routesOK", "routesRefused"}
+			"reloginParked", "gleaveParked", "wdGroupOK", "wdGroupRefused", "natSent", "swc", "closeraceSent", "pstormSent", "routesOK", "routesRefused",
+			"userReq", "userAnswered", "ptearCut", "ptearOK", "gchurnRounds"}
 		out := []string{fmt.Sprintf("sessions=%d", len(byRun)), fmt.Sprintf("proxies=%d", len(names))}
 		for _, k := range ks {
 			out = append(out, fmt.Sprintf("%s=%d", k, crashCnt[k]))
@@ -1497,6 +1521,10 @@ func crashGen(rng *rand.Rand, n int, emit func(string)) {
 		}
 	}
 	emit("watch")
+	// 1u. the user-facing listeners and the string functions behind them; frpc teardown under active plugin requests
+	crashGenUser(rng, emit)
+	crashGenPtear(rng, emit)
+	emit("watch")
 	// 1w. wedges: re-logins with a live / closing session's run id; a join racing the last leave of a group; valid nat-hole traffic
 	for i, g := range crashReloginGates {
 		k := 2 + (i+rng.Intn(2))%3
@@ -1506,6 +1534,9 @@ func crashGen(rng *rand.Rand, n int, emit func(string)) {
 	for _, kind := range crashGroupKinds {
 		emit(fmt.Sprintf("gleave gl %s %d", kind, rng.Intn(1<<20)&^3)) // CloseProxy, right key
 		emit(fmt.Sprintf("gleave gl %s %d", kind, rng.Intn(1<<20)|1))  // connection drop (odd), right or wrong key
+	}
+	for _, kind := range crashGroupKinds {
+		emit(fmt.Sprintf("gchurn gc %s %d", kind, 200+rng.Intn(200))) // the same race without a gate: leave and join back to back, many rounds
 	}
 	for v := 0; v < 4; v++ {
 		emit(fmt.Sprintf("routes rt http %d", rng.Intn(1<<20)&^3|v))
@@ -1566,7 +1597,11 @@ func crashGen(rng *rand.Rand, n int, emit func(string)) {
 		case x < 25:
 			emit(fmt.Sprintf("routes %s %s %d", pick(rng, []string{"q1", "q2"}), pick(rng, []string{"http", "tcpmux"}), rng.Intn(1<<20)))
 		case x < 27:
-			emit(fmt.Sprintf("gleave %s %s %d", pick(rng, []string{"g1", "g2"}), pick(rng, crashGroupKinds), rng.Intn(1<<20)))
+			if rng.Intn(3) == 0 {
+				emit(fmt.Sprintf("gchurn %s %s %d", pick(rng, []string{"g1", "g2"}), pick(rng, crashGroupKinds), 50+rng.Intn(350)))
+			} else {
+				emit(fmt.Sprintf("gleave %s %s %d", pick(rng, []string{"g1", "g2"}), pick(rng, crashGroupKinds), rng.Intn(1<<20)))
+			}
 		case x < 29:
 			good := rng.Intn(3) == 0
 			ver := pick(rng, []string{"none", "v1", "v2", "v1", "v2"})
@@ -1575,6 +1610,15 @@ func crashGen(rng *rand.Rand, n int, emit func(string)) {
 			}
 			emit(fmt.Sprintf("swc %s %s %d %s %d", ver, hx(crashHost(rng, good)), []int{1, 0, 65535, 40000}[rng.Intn(4)],
 				hx([]string{"", crashHost(rng, good)}[rng.Intn(2)]), []int{80, 0, 65535}[rng.Intn(3)]))
+		case x < 32:
+			lst := pick(rng, append([]string{"mux", "mux", "http"}, crashUserListeners...))
+			emit("ureq " + lst + " " + hx(string(crashUserReqCapped(rng, lst))))
+		case x < 33:
+			if rng.Intn(3) == 0 {
+				emit(fmt.Sprintf("ptear %s %d %s %d", pick(rng, crashPlugins), rng.Intn(2), pick(rng, crashHolds), 1+rng.Intn(3)))
+			} else {
+				emit("canon " + hx(crashUserHost(rng)))
+			}
 		case x < 70:
 			t := crashTypes[rng.Intn(len(crashTypes))]
 			if rng.Intn(2) == 0 {
@@ -1597,6 +1641,9 @@ func crashGen(rng *rand.Rand, n int, emit func(string)) {
 		emitted++
 		if emitted%stormEvery == 0 {
 			emit(fmt.Sprintf("storm %d %d %d", rng.Intn(1<<20), 6+rng.Intn(10), 15+rng.Intn(25)))
+			if emitted%(2*stormEvery) == 0 {
+				emit(fmt.Sprintf("ustorm %d %d %d", rng.Intn(1<<20), 4+rng.Intn(8), 6+rng.Intn(12)))
+			}
 			if emitted%(3*stormEvery) == 0 {
 				emit(fmt.Sprintf("wstorm %d %d %d", rng.Intn(1<<20), 4+rng.Intn(8), 4+rng.Intn(12)))
 			}
